@@ -73,6 +73,10 @@ VOCAB = [
     '<rect x="0" y="0" width="5" height="5"><animate attributeName="x" from="0" to="10" dur="2s" repeatCount="indefinite"/></rect>',
     '<switch><g systemLanguage="en"><rect x="0" y="0" width="5" height="5"/></g><rect x="0" y="0" width="2" height="2"/></switch>',
     '<rect x="10%" y="5mm" width="50%" height="2cm"/><circle cx="1in" cy="12pt" r="1pc"/><line x1="1em" y1="2ex" x2="30px" y2="0"/>',
+    '<text x="1" y="2">Hello<!-- note --> World</text><rect x="0" y="0" width="3" height="3"><!-- only a comment --></rect>',
+    '<text x="1" y="2">a<tspan>b</tspan><!-- c -->d<tspan dx="1">e</tspan></text><g><!-- first --><rect x="0" y="0" width="1" height="1"/><!-- last --></g>',
+    '<defs><filter id="f2"><feOffset dx="2" dy="3" result="o"/><feFlood flood-color="red"/><feComposite in2="o" operator="in"/></filter></defs><rect x="0" y="0" width="4" height="4" filter="url(#f2)"/>',
+    '<text x="1" y="2" dx="1 2 3" dy="0.5" rotate="10">spaced</text><text x="1" y="9"><tspan x="1" dy="1.2em" dx="2">line</tspan></text>',
 ]
 
 
